@@ -166,6 +166,46 @@ def h_merge(base0: int, base1: int, base2: int, base3: int, d0: int, d1: int, d2
     return finish(ok, nontrivial, ("merge", tuple(len(s) for s in srcs), bool(rev), bool(usekey)))
 
 
+def h_accumulate_add(a0: int, a1: int, a2: int, a3: int, a4: int, n: int, init: int, has_init: bool):
+    """
+    pre: 0 <= n <= P("N", 5)
+    post: _[0]
+    post: not _[1]
+    """
+    from .world import reset_run
+
+    reset_run()
+    src = [a0, a1, a2, a3, a4]
+    vals = []
+    for j in range(n):
+        vals.append(src[j])
+    Wa = World("a")
+    D = Driver(Wa, sync_only=True)
+    try:
+        if has_init:
+            ait = A.accumulate(Wa.source(vals, P("fl", "agen")), initial=init)
+            exp = list(itertools.accumulate(list(vals), initial=init))
+        else:
+            ait = A.accumulate(Wa.source(vals, P("fl", "agen")))
+            exp = list(itertools.accumulate(list(vals)))
+        out, end = D.take(ait, len(vals) + 2)
+    except Suspended:
+        return finish(fail("accumulate:suspended-with-nonsuspending-arguments"), False)
+    ok = True
+    if not vals and not has_init:
+        # documented deviation: TypeError instead of an empty iterator
+        if out or type(end) is not TypeError:
+            ok = fail("accumulate:empty-without-initial-must-raise-TypeError", (out, end))
+    else:
+        if len(out) != len(exp) or end != "stop":
+            ok = fail("accumulate:running-sums-length-differs", (out, exp, end))
+        else:
+            for x, y in zip(out, exp):
+                if not (x == y):  # decided by the solver for all integer values
+                    ok = fail("accumulate:running-sum-differs", (out, exp)) and ok
+    return finish(ok, len(vals) >= 2, ("accumulate_add", len(vals), bool(has_init)))
+
+
 def _tee_pre(n, m, o0, o1, o2, o3, o4, o5, o6, o7):
     return 0 <= n <= P("N", 3) and 0 <= m <= P("M", 6)
 
@@ -294,7 +334,7 @@ def _grid_tee():
     return [tuple([rnd.randint(0, P("N", 3)), rnd.randint(0, P("M", 6))] + [rnd.randint(0, 2) for _ in range(8)]) for _ in range(40)]
 
 
-GRID = {"h_tool": _grid_tool, "h_merge": _grid_merge, "h_tee": _grid_tee}
+GRID = {"h_tool": _grid_tool, "h_merge": _grid_merge, "h_tee": _grid_tee, "h_accumulate_add": lambda: [(1, -2, 3, 0, 5, n, 7, h) for n in range(6) for h in (False, True)]}
 
 
 def jobs(tier):
@@ -340,6 +380,8 @@ def jobs(tier):
         for rev in (False, True):
             for uk in (False, True):
                 add("h_merge", T, S=len(L), N=max(L), L=L, rev=rev, usekey=uk)
+    add("h_accumulate_add", T, N=5, fl="agen")
+    add("h_accumulate_add", T, N=5, fl="list")
     add("h_tee", T, C=2, N=3, M=(6 if q else 8))
     add("h_tee", T, C=3, N=(2 if q else 3), M=(5 if q else 8))
     return J
@@ -353,5 +395,5 @@ OUTSIDE = [
     "lengths / numbers of sources above the bound",
     "negative islice arguments, accumulate(initial=None)",
     "items with inconsistent or partial comparisons (NaN, sets)",
-    "default accumulate (operator.add) over non-int items",
+    "default accumulate (operator.add) over non-int items (ints: running sums proved equal for all integer values)",
 ]
